@@ -21,6 +21,11 @@ SVN = {0: 'base', 1: 'v0', 2: 'taproot', 3: 'tapscript'}
 SIGFLAGS = ["DERSIG", "LOW_S", "STRICTENC", "NULLFAIL", "NULLDUMMY", "WITNESS_PUBKEYTYPE", "CONST_SCRIPTCODE", "DISCOURAGE_UPGRADABLE_PUBKEYTYPE"]
 
 
+def zlib_crc(x):
+    import zlib
+    return zlib.crc32(x.encode())
+
+
 def rnd_flags(rng):
     r = rng.random()
     if r < 0.3:
@@ -402,7 +407,9 @@ def case_cmds(c):
     cmds.append('SC ' + hexs(c['script']))
     if c['stack']:
         cmds.append('ST ' + items(c['stack']))
-    cmds += ['SU', 'CS']
+    # a third of the sessions "hover": every step is taken, taken back and taken again - the verdict of a signature check
+    # must not depend on how the session got there
+    cmds += ['SU', 'CSH' if c.get('hover') else 'CS']
     return cmds
 
 
@@ -410,7 +417,7 @@ def judge(c, lines, part):
     ctx = c['ctx']
     sv, flags = c['sv'], c['flags']
     wit = dict(id=c['id'], sv=sv, flags=flags, script=c['script'].hex(), stack=[x.hex() for x in c['stack']], tx=rtx.ser_tx(ctx['tx']).hex(), fund=rtx.ser_tx(ctx['fund']).hex(),
-               idx=ctx['idx'], amount=ctx['amount'], annex=c['annex'].hex() if c.get('annex') is not None else None, weight=c.get('weight'), pattern=c.get('pattern'), notes=c['notes'])
+               idx=ctx['idx'], amount=ctx['amount'], annex=c['annex'].hex() if c.get('annex') is not None else None, weight=c.get('weight'), pattern=c.get('pattern'), notes=c['notes'], hover=bool(c.get('hover')))
     part.evaluations += 1
     evs = parse_events(lines)
     if any(k == 'CRASH' for k, e in evs):
@@ -440,6 +447,8 @@ def judge(c, lines, part):
     for k, e in evs:
         if k == 'H':
             pend_h.append(e[1])
+        elif k == 'HV':
+            pend_h = []          # (digests of the step that was taken back)
         elif k == 'S':
             steps.append((e, pend_h))
             pend_h = []
@@ -530,6 +539,7 @@ def worker(job):
         cases = []
         for i in range(n):
             c = gen_case(rng, 's%d.%d' % (idx, i))
+            c['hover'] = (zlib_crc(c['id']) % 3 == 0)
             cases.append(c)
         events, crashes, hangs = run_harness_cases(bindir, [(c['id'], case_cmds(c)) for c in cases], wd)
         by = {c['id']: c for c in cases}
